@@ -235,6 +235,32 @@ func genNative(r *rand.Rand) *nat {
 			}
 		}
 	}
+	if n.count() > 0 && r.IntN(3) == 0 {
+		// explicit zero-count buckets at the outer edges of the populated range (legal in spans;
+		// they hold no rank, so no quantile may be answered from them)
+		if n.custom {
+			ks := sortedKeys(n.pos)
+			if lo := ks[0] - 1; lo >= 0 && r.IntN(2) == 0 {
+				n.pos[lo] = 0
+			}
+			if hi := ks[len(ks)-1] + 1; int(hi) <= len(n.bounds) && r.IntN(3) != 0 {
+				n.pos[hi] = 0
+			}
+		} else {
+			for _, m := range []map[int32]float64{n.pos, n.neg} {
+				ks := sortedKeys(m)
+				if len(ks) == 0 {
+					continue
+				}
+				if lo := ks[0] - 1; expBound(lo-1, n.schema) >= n.zt*(1+1e-9) && r.IntN(2) == 0 {
+					m[lo] = 0
+				}
+				if r.IntN(2) == 0 {
+					m[ks[len(ks)-1]+1] = 0
+				}
+			}
+		}
+	}
 	if r.IntN(25) == 0 { // empty histogram
 		n.pos, n.neg, n.zc = map[int32]float64{}, map[int32]float64{}, 0
 	}
@@ -382,7 +408,7 @@ func checkQuantiles(c *core.Case, via string, n *nat, qs, vals []float64) {
 		for _, b := range bs {
 			lo, hi := cum, cum+b.count
 			cum = hi
-			if rank >= lo-slack && rank <= hi+slack {
+			if b.count > 0 && rank >= lo-slack && rank <= hi+slack {
 				cand = append(cand, b)
 				for _, x := range []float64{b.lower, b.upper} {
 					if !math.IsInf(x, 0) && math.Abs(x) > scale {
